@@ -38,6 +38,24 @@ PROPS = {
         "trusted_base": [],
         "assumptions": ["timeout: None (the property's quantifier)"],
     },
+    "C05": {
+        "num": 5,
+        "vo": ["Properties/C05.vo"],
+        "harness_timeout": 3000,
+        "rule": "14 entry points (evaluate_expression on an identifier alphabet with exact prediction; evaluate_expression, GRLParser::parse_rules / parse_with_modules, QueryParser, ExpressionParser, GRLQueryParser::parse / parse_queries, "
+                "parse_stream_pattern / parse_stream_join_pattern, parse_aggregate_query, DisjunctionParser, NestedQueryParser::parse / has_nested on arbitrary text) x streams: random strings over the identifier alphabet; every "
+                "single insertion of 6 multi-byte characters into 5 expressions; 16 valid seed texts and their mutants (truncate, duplicate a segment, insert a multi-byte character / a token, splice with another seed, delete, "
+                "replace by a delimiter); token soups of 48 GRL/query tokens; lossily decoded raw bytes; prefix chains and nestings (!, (, [, {, NOT, -, !(, exists() of depth 33, 500 and up to 4 KiB. The batch runs in a child "
+                "process: a panic is caught per case, a stack overflow/abort or 120 s without progress marks the case and the run continues. non-trivial = every case",
+        "level_text": "Theorem for the expression evaluator, for EVERY string: no slice off a character boundary or out of range, termination with recursion depth <= length+1 (every slice of the code carries its byte offsets in the "
+                "model, a bad slice is the value RPanic). On the identifier alphabet the model's exact outcome (first failing leaf) is compared with the code. All other entry points are exercised by the fuzzing streams under "
+                "the crash/hang watchdog; the verdict per case is the Coq-defined ExprShape.ok (returned a value or an error).",
+        "level_note": "Partial: only evaluate_expression is modelled and proved; the GRL / query / stream parsers depend on the third-party crates rexile and nom, whose time and stack behaviour is not expressible in Gallina and is "
+                "covered by the watchdog harness only. Known finding C05-rexile-multibyte-before-keyword (monitor class 2). Trusted: Coq kernel; model of expression.rs after fixes 32df0c7/aee5bb9; char::is_whitespace and "
+                "str::parse as parameters; harness; extraction. Axioms: none.",
+        "trusted_base": ["rexile 0.5.8 and nom 8 (third-party parsers): not modelled"],
+        "assumptions": ["inputs up to 4 KiB as in the quantifier; 120 s watchdog per case"],
+    },
     "C06": {
         "num": 6,
         "vo": ["Properties/C06.vo"],
